@@ -162,6 +162,13 @@ func Generate(t *simrt.Tape, prof Profile) *WF {
 		g.avail = append(g.avail, availStream{e: Edge{len(w.Nodes) - 1, "out"}, n: L, ordered: true, param: true, origin: g.newOrigin()})
 	}
 	nprocs := 1 + g.n(max(1, prof.MaxProcs))
+	if L > 20 && nprocs > 4 {
+		// every audit file embeds the records of all ancestors as a TREE: with deep
+		// graphs its size grows exponentially with the depth, and a long stream
+		// multiplies that by its length (gigabytes per case): long streams go with
+		// at most four processes
+		nprocs = 4
+	}
 	sinkless := false
 	for j := 0; j < nprocs; j++ {
 		g.addProc(j, &sinkless)
